@@ -285,6 +285,13 @@ func (c *Ctx) Add(as ...*Term) *Term {
 	return c.mk("+", Int, out...)
 }
 
+func constLeaves(t *Term) bool {
+	if t.IsConst() {
+		return true
+	}
+	return t.Op == "ite" && constLeaves(t.Args[1]) && constLeaves(t.Args[2])
+}
+
 func sortByID(ts []*Term) {
 	sort.SliceStable(ts, func(i, j int) bool { return ts[i].ID < ts[j].ID })
 }
@@ -396,6 +403,12 @@ func (c *Ctx) cmpInt(op string, a, b *Term) *Term {
 	}
 	if a == b {
 		return c.BoolC(op == "<=" || op == ">=")
+	}
+	if a.Op == "ite" && constLeaves(a) && b.IsConst() {
+		return c.Ite(a.Args[0], c.cmpInt(op, a.Args[1], b), c.cmpInt(op, a.Args[2], b))
+	}
+	if b.Op == "ite" && constLeaves(b) && a.IsConst() {
+		return c.Ite(b.Args[0], c.cmpInt(op, a, b.Args[1]), c.cmpInt(op, a, b.Args[2]))
 	}
 	return c.mk(op, Bool, a, b)
 }
@@ -593,6 +606,9 @@ func (c *Ctx) ZeroExt(n int, a *Term) *Term {
 	if a.IsConst() {
 		return c.BVC(a.Sort.W+n, a.Val)
 	}
+	if a.Op == "ite" && constLeaves(a) {
+		return c.Ite(a.Args[0], c.ZeroExt(n, a.Args[1]), c.ZeroExt(n, a.Args[2]))
+	}
 	return c.intern(&Term{Op: "zero_extend", Sort: BV(a.Sort.W + n), Args: []*Term{a}, Aux: [2]int{n, 0}})
 }
 
@@ -602,6 +618,9 @@ func (c *Ctx) SignExt(n int, a *Term) *Term {
 	}
 	if a.IsConst() {
 		return c.BVC(a.Sort.W+n, toSigned(a.Val, a.Sort.W))
+	}
+	if a.Op == "ite" && constLeaves(a) {
+		return c.Ite(a.Args[0], c.SignExt(n, a.Args[1]), c.SignExt(n, a.Args[2]))
 	}
 	return c.intern(&Term{Op: "sign_extend", Sort: BV(a.Sort.W + n), Args: []*Term{a}, Aux: [2]int{n, 0}})
 }
@@ -620,6 +639,9 @@ func (c *Ctx) BV2Nat(a *Term) *Term {
 	if a.IsConst() {
 		return c.IntC(a.Val)
 	}
+	if a.Op == "ite" && constLeaves(a) {
+		return c.Ite(a.Args[0], c.BV2Nat(a.Args[1]), c.BV2Nat(a.Args[2]))
+	}
 	return c.mk("bv2nat", Int, a)
 }
 
@@ -627,6 +649,9 @@ func (c *Ctx) BV2Nat(a *Term) *Term {
 func (c *Ctx) BV2IntSigned(a *Term) *Term {
 	if a.IsConst() {
 		return c.IntC(toSigned(a.Val, a.Sort.W))
+	}
+	if a.Op == "ite" && constLeaves(a) {
+		return c.Ite(a.Args[0], c.BV2IntSigned(a.Args[1]), c.BV2IntSigned(a.Args[2]))
 	}
 	w := a.Sort.W
 	n := c.BV2Nat(a)
